@@ -152,7 +152,7 @@ fn loss_detect_with_granularity(s: Scenario, full: bool) {
     kani::cover!(true, "reach:end");
 }
 
-//@ harness props=C09 tier=quick level=full timeout=720
+//@ harness props=C09 tier=quick level=full timeout=900
 //@ fn recovery::loss::detect
 #[kani::proof]
 #[kani::unwind(3)]
